@@ -24,21 +24,21 @@ TECH = {
     "C07": "reference-model monitor over exported vectors (tree and list); every closed state x export times; dbg/rel/ASan/Miri",
     "C08": "reference-model monitor with handle dereference / write / delete and lookup sweeps; closure + seeded histories",
     "C09": "reference-model monitor over neighbour steps and full walks; closure + seeded histories; dbg/ASan/Miri",
-    "C10": "sanitizers as crash oracles: debug assertions + overflow + std unsafe-precondition checks, AddressSanitizer, Miri, watchdog with reproduced-stall rule",
+    "C10": "sanitizers as crash oracles: debug assertions + overflow + std unsafe-precondition checks, AddressSanitizer, Miri, valgrind memcheck, watchdog with reproduced-stall rule",
     "C11": "invariant monitor: slot accounting partition and storage bound over hooked snapshots; closure + long churn",
     "C12": "differential monitor: cleared instance vs fresh twin under the same suffix, reference model alongside",
     "C13": "reference-model monitors of C01/C04-C09 run on the sorted-list variants",
     "C14": "configuration grid with hooked place observation vs independent bucket function; dbg/rel/ASan/Miri",
     "C15": "exhaustive enumeration of the finite mask space observed through queries and the hooked dump vs independent tiling",
     "C16": "invariant monitor over the hooked dump after fully consumed queries (only observation point for physical removal)",
-    "C17": "held-handle monitor re-checked after insertions; closure x insertion sequences + seeded histories",
-    "C18": "fault injection at every callback invocation (panic), catch_unwind, structure + contents + continuation monitors; dbg/rel/ASan/Miri",
+    "C17": "held-handle monitor re-checked after insertions (also insertions that repeat a stored key); closure x insertion sequences + seeded histories",
+    "C18": "fault injection at every callback invocation (panic), catch_unwind, structure + contents + continuation monitors; dbg/rel/ASan/Miri/memcheck",
     "C19": "allocation monitor (counting global allocator) + returned capacity under RLIMIT_AS; size sweep",
     "C20": "callback monitor: instrumented key and closure types record every argument handed to user comparison code",
 }
 
 NOTE = {
-    "C10": "Trusted: rustc/std debug checks, ASan runtime, Miri. ASan cannot see a wild access landing inside another live allocation; dbg's exact index check and Miri cover that on the paths they run. The no-hang clause is decided only as 'no reproduced stall of one call'.",
+    "C10": "Trusted: rustc/std debug checks, ASan runtime, Miri, valgrind memcheck. ASan cannot see a wild access landing inside another live allocation; dbg's exact index check and Miri cover that on the paths they run. The no-hang clause is decided only as 'no reproduced stall of one call'.",
     "C18": "Trusted: catch_unwind semantics, the harness' reference models. Histories are short (18 ops) so that every injection point is enumerated; for a panic inside a segment-tree iterator the iterator is dropped and a fresh query is compared.",
 }
 
